@@ -184,7 +184,7 @@ ADD_TEXT = {
     "C11": " A block comment still open at the end of the input counts as an irregular token, not as a comment.",
     "C12": " Workload families added: verbatim regions in context, text blocks attached to literal / doc annotations, strings with raw control and format characters and raw line breaks, nested directives, vertical re-breaking, redundant parentheses with a break inside; the CLI leg also feeds token-mutated unparseable files. The text of `--|` lines is compared character for character (a literal splice is invisible in the desugared term); multi-line block comments opening after wide characters are part of the workload.",
     "C13": " Verbatim regions (extent from the parser's spans) must occur byte for byte in the output; comment payloads include multi-line, non-ASCII and delimiter look-alike content. Format directives that do not validate (misspelt, repeated, wrong argument shapes) surround payloads with comments: an inert directive must lose nothing.",
-    "C14": " Further canonical legs compare a source with the same source plus one redundant single-line parenthesis pair (where the policy drops them and the pair is not printed as a multi-line group) and with one pun spelling toggled, each variant confirmed to desugar identically. A CLI leg names several files in one `fmt --check` invocation and compares the listing and the exit status with the single-file verdicts. Violations are tagged by experiments on the input (the same source without groups around single atoms formats to a fixed point; the added pair of the parenthesis leg sits around an atom) and by the input's hash, which is how the open findings of the thorough tier are keyed.",
+    "C14": " Further canonical legs compare a source with the same source plus one redundant single-line parenthesis pair (where the policy drops them and the pair is not printed as a multi-line group) and with one pun spelling toggled, each variant confirmed to desugar identically. A CLI leg names several files in one `fmt --check` invocation and compares the listing and the exit status with the single-file verdicts. Violations are tagged by experiments on the input (the same source without groups around single atoms formats to a fixed point; the added pair of the parenthesis leg sits around an atom) and by the input's hash, which is how the open findings of the thorough tier are keyed. The thorough tier takes every third case of the shared formatter workload (offset by the seed): with all of them it ran for more than two hours.",
     "C16": " Programs with several duplicate definitions, unbound names or missing arms at once, and random ill-formed grammar terms, target the order in which ambiguous diagnostics are chosen. Blocks with several recursive components through parameters are included. Accepted programs with several tuple variables that are only taken apart put several candidates of one back-end optimisation into one build.",
     "C17": " The quick tier also runs the allocator-identity race under Miri at four scheduler seeds. A language-server leg drives the repository's cajun binary over stdio with seeded open / change / close / reopen histories on several documents (every text identifies itself by a unique symbol and a warning on a unique line; all messages stamped from one logical clock; pauses aimed at fractions of a measured analysis): answers never come from contents replaced before the request was sent, diagnostics never describe a text older than their version label, at quiescence answers and the last publication are those of the current contents (also for a root importing another open document), and the server neither dies nor stops answering. A pending-slot leg calls check_resolved with ten distinguishable programs on one long-lived session and on concurrent snapshots against fresh sessions.",
     "C18": " Generated programs include comatch redexes inside thunks / continuations / fix bodies and existential packages. A shapes generator runs 24 binder / scrutinee / arm shapes over the repository's standard library (each accepted and run by the interpreter first) through the same monitors; matches with overlapping arms are generated. A fixture-mutants generator applies token-level changes to the repository's compile and exec fixtures (arms swapped, duplicated, turned into catch-alls, literals and identifiers replaced, uses wrapped into value-level lets), installs each as an overlay at the fixture's own path, and lowers every mutant that check still accepts as an executable.",
